@@ -5,6 +5,11 @@ PROP = {
     "id": "C01",
     "lean_targets": ["Sonic.Props.C01"],
     "theorems": [
+        "Sonic.Props.C01.C01_at_most_once",
+        "Sonic.Props.C01.C01_no_callback_without_start",
+        "Sonic.Props.C01.C01_completed_leaves_no_reference",
+        "Sonic.Model.Loop.step_refs",
+        "Sonic.Model.Loop.run_refs",
         "Sonic.Props.C01.C01_inline_xor_deferred",
         "Sonic.Props.C01.C01_no_second_inline",
         "Sonic.Props.C01.C01_dispatch_clears_interest",
@@ -25,7 +30,10 @@ PROP = {
         "liveness needs the kernel to report readiness: observed with poll(2) as an independent oracle in the drain phase",
     ],
     "manifest": {
-        "level_text": "Partial. Proved (Lean, for every state and event of the loop model): an operation completes inline inside its "
+        "level_text": "Partial. Proved (Lean): for EVERY event history the loop model accepts (any objects, poll batches, handler "
+                      "behaviours, inline or deferred paths) the callback of a non-repeating operation is entered at most once per "
+                      "start (C01_at_most_once, by a reference-counting invariant over all 17 transition kinds), never without a "
+                      "start, and after it no reference to it is left; and for every state and event: an operation completes inline inside its "
                       "start call or is registered, never both; a completed start frame admits no second callback; the poller and "
                       "Cancel clear the interest before running the handler; Cancel cannot return while an interest of the object is "
                       "registered and delivers only cancellation/de-registration errors; Close leaves no interest and no registry "
@@ -34,8 +42,8 @@ PROP = {
                       "monitor on the real loop's traces (which the model must also accept); liveness is kernel-dependent.",
         "design_ref": "5/C01",
         "level_note": "Trusted: Lean kernel; hand-written loop model tied to the code by trace acceptance; kernel readiness read off the "
-                      "trace and cross-checked with poll(2). Not proven: the global at-most-once theorem over histories (only its "
-                      "per-transition ingredients), liveness.",
+                      "trace and cross-checked with poll(2). Not proven: liveness ('never zero times'), which needs the kernel to "
+                      "report readiness.",
         "technique": "Lean 4 per-transition theorems over a loop-model LTS + ledger monitor and model acceptance on real event-loop traces",
     },
 }
